@@ -24,19 +24,25 @@ type e2eBudgetCase struct {
 	Global uint64   `json:"global"`
 	Per    uint64   `json:"per"`
 	Len    int      `json:"len"`
+	Reps   int      `json:"reps,omitempty"` // sequential requests on the same pair of instances (default 1), each over a fresh chain
 	Tags   []string `json:"tags,omitempty"`
 }
 
+type e2eBudgetObs struct {
+	loaded uint64
+	failed bool
+}
+
 // returns blocks loaded by the enforcing peer's traversal and whether the request ended with an error
-func runE2EBudget(c e2eBudgetCase) (loaded uint64, failed bool, err error) {
+func runE2EBudget(c e2eBudgetCase) (out []e2eBudgetObs, err error) {
 	w, err := e2e.NewWorld(2)
 	if err != nil {
-		return 0, false, err
+		return nil, err
 	}
 	defer w.Close()
-	d := dag.Chain(c.Len)
-	for _, b := range d.Blocks {
-		w.Nodes[1].Store.Put(dagLink(b), b.Data)
+	reps := c.Reps
+	if reps < 1 {
+		reps = 1
 	}
 	var reqOpts, respOpts []gsimpl.Option
 	if c.Side == "requestor" && c.Global > 0 {
@@ -65,31 +71,45 @@ func runE2EBudget(c e2eBudgetCase) (loaded uint64, failed bool, err error) {
 	req.RegisterIncomingBlockHook(func(p peer.ID, r graphsync.ResponseData, b graphsync.BlockData, ha graphsync.IncomingBlockHookActions) {
 		atomic.AddUint64(&reqBlocks, 1)
 	})
-	ctx, cancel := context.WithTimeout(w.Ctx, 10*time.Second)
-	defer cancel()
-	progress, errs := req.Request(ctx, w.Nodes[1].ID(), d.Root(), dag.AllSelector())
-	for progress != nil || errs != nil {
-		select {
-		case _, ok := <-progress:
-			if !ok {
-				progress = nil
+	// every request of the case runs on the same two instances: a budget is per request, so each must
+	// behave as the first one does
+	for rep := 0; rep < reps; rep++ {
+		d := dag.ChainSalt(c.Len, int64(rep))
+		for _, b := range d.Blocks {
+			w.Nodes[1].Store.Put(dagLink(b), b.Data)
+		}
+		atomic.StoreUint64(&respBlocks, 0)
+		atomic.StoreUint64(&reqBlocks, 0)
+		failed := false
+		ctx, cancel := context.WithTimeout(w.Ctx, 30*time.Second)
+		progress, errs := req.Request(ctx, w.Nodes[1].ID(), d.Root(), dag.AllSelector())
+		for progress != nil || errs != nil {
+			select {
+			case _, ok := <-progress:
+				if !ok {
+					progress = nil
+				}
+			case e, ok := <-errs:
+				if !ok {
+					errs = nil
+				} else if e != nil {
+					failed = true
+				}
+			case <-ctx.Done():
+				cancel()
+				return nil, fmt.Errorf("request timed out")
 			}
-		case e, ok := <-errs:
-			if !ok {
-				errs = nil
-			} else if e != nil {
-				failed = true
-			}
-		case <-ctx.Done():
-			return 0, false, fmt.Errorf("request timed out")
+		}
+		cancel()
+		if c.Side == "responder" {
+			// let the responder finish its bookkeeping
+			time.Sleep(5 * time.Millisecond)
+			out = append(out, e2eBudgetObs{atomic.LoadUint64(&respBlocks), failed})
+		} else {
+			out = append(out, e2eBudgetObs{atomic.LoadUint64(&reqBlocks), failed})
 		}
 	}
-	if c.Side == "responder" {
-		// let the responder finish its bookkeeping
-		time.Sleep(5 * time.Millisecond)
-		return atomic.LoadUint64(&respBlocks), failed, nil
-	}
-	return atomic.LoadUint64(&reqBlocks), failed, nil
+	return out, nil
 }
 
 const e2eBudgetHeader = `From Coq Require Import List NArith Bool.
@@ -102,10 +122,13 @@ Definition mk_ebcase := Build_ebcase.
 func driveE2EBudget(c *ctx) error {
 	w := cw.New(c.out, e2eBudgetHeader, "ebcase", []cw.Check{{Name: "MON07E", Fn: "ebcase_ok"}})
 	w.Stats.Rule = "two real GraphSync instances over the libp2p mocknet; chain DAGs of 1..6 blocks on the responder; every combination of global and per-request " +
-		"link budget in {0..4} on the requestor and on the responder; observed = blocks loaded by the enforcing peer and whether the request failed; " +
+		"link budget in {0..4} on the requestor and on the responder; 1-3 sequential requests (fresh chains) per pair of instances; observed = blocks loaded by the enforcing peer and whether the request failed; " +
 		"non-trivial = both budgets non-zero; distinct = distinct terms"
 	run := func(ec e2eBudgetCase, tag string) error {
-		loaded, failed, err := runE2EBudget(ec)
+		obs, err := runE2EBudget(ec)
+		if err != nil {
+			obs, err = runE2EBudget(ec) // a request that timed out on a loaded machine is tried once more
+		}
 		if err != nil {
 			return err
 		}
@@ -113,9 +136,11 @@ func driveE2EBudget(c *ctx) error {
 		if ec.Side == "responder" {
 			side = 1
 		}
-		term := fmt.Sprintf("mk_ebcase %d %d %d %d %d %s", side, ec.Global, ec.Per, ec.Len, loaded, cw.Bool(failed))
-		ec.Tags = []string{"kind:" + tag, "side:" + ec.Side}
-		w.Add(term, ec, ec.Global > 0 && ec.Per > 0, ec.Tags...)
+		for i, o := range obs {
+			term := fmt.Sprintf("mk_ebcase %d %d %d %d %d %s", side, ec.Global, ec.Per, ec.Len, o.loaded, cw.Bool(o.failed))
+			ec.Tags = []string{"kind:" + tag, "side:" + ec.Side, fmt.Sprintf("request-no:%d", i+1)}
+			w.Add(term, ec, ec.Global > 0 && ec.Per > 0, ec.Tags...)
+		}
 		return nil
 	}
 	if c.replay != "" {
@@ -148,7 +173,7 @@ func driveE2EBudget(c *ctx) error {
 					}
 				}
 				for _, l := range ls {
-					if err := run(e2eBudgetCase{Side: side, Global: uint64(g), Per: uint64(p), Len: l}, "grid"); err != nil {
+					if err := run(e2eBudgetCase{Side: side, Global: uint64(g), Per: uint64(p), Len: l, Reps: 1 + (g+p+l)%3}, "grid"); err != nil {
 						return err
 					}
 				}
